@@ -177,20 +177,31 @@ Fixpoint prefix_b (a b : list str) : bool :=
   | x :: a', y :: b' => str_eqb x y && prefix_b a' b'
   | _ :: _, [] => false
   end.
+Fixpoint insert_by_depth (H : nscope) (l : list nscope) : list nscope :=
+  match l with
+  | [] => [H]
+  | X :: l' => if Nat.leb (length (s_path H)) (length (s_path X)) then H :: l else X :: insert_by_depth H l'
+  end.
+(* outermost host first *)
 Definition hosts (M : module) (S : nscope) : list nscope :=
-  filter (fun H => prefix_b (s_path H) (s_path S)) (m_nested M).
-(* a lower bound of what the dictionary of class c of scope S holds when S is correlated: the
-   module's dictionary (host association through the shared / copied dictionaries) and what the
-   USE statements of S and of its hosts add.  Declarations local to procedures also end up in
-   these dictionaries (C07); they are not part of this model. *)
+  fold_right insert_by_depth [] (filter (fun H => prefix_b (s_path H) (s_path S)) (m_nested M)).
+(* what an inner scope adds hides the same-named entries it gets from its host: the names it
+   obtains by use association (merged last into its copy of the host's dictionary) and its local
+   declarations (which this model does not carry: their names are just dropped) *)
+Definition layer (outer : list (str * ent)) (locals : list str) (inner : list (str * ent)) : list (str * ent) :=
+  inner ++ filter (fun kv => negb (str_in (fst kv) (map fst inner)) && negb (str_in (fst kv) locals)) outer.
+(* what the dictionary of class c of scope S holds when S is correlated, apart from declarations
+   local to procedures: the module's dictionary (host association: every scope starts from a copy
+   of its host's dictionary), over it what the USE statements of each host add, outermost first,
+   and last what S's own USE statements add *)
 Definition nested_lower_model (c : cls) (g : graph) (order : list str) (M : module) (S : nscope) : list (str * ent) :=
   match c, is_body S with
   | CVar, true =>
     (* FortranInterface.correlate hands all_procs, all_types and all_absinterfaces of the host to
        the body but no all_vars: the body's procedure starts from an empty dictionary *)
     nested_imports_model c g order M S
-  | _, _ => snd (st_tabs (correlate_all c g order) M)
-            ++ flat_map (nested_imports_model c g order M) (hosts M S)
+  | _, _ => fold_left (fun acc H => layer acc (map d_name (s_decls H)) (nested_imports_model c g order M H))
+                      (hosts M S) (snd (st_tabs (correlate_all c g order) M))
   end.
 
 (* toposort_flatten over {module: modules it uses}: self-dependencies are discarded, every round
@@ -302,10 +313,13 @@ Definition scope (c : cls) (g : graph) (M : module) : list (str * ent) :=
    (its own, those of its hosts, the module's scope by host association) *)
 Definition nested_imports (c : cls) (g : graph) (M : module) (S : nscope) : list (str * ent) :=
   imports g (as_module M S) (accessible_n (length g) c g).
-(* an interface body has no host association (without IMPORT): only its own USE statements count *)
+(* an interface body has no host association (without IMPORT): only its own USE statements count.
+   Elsewhere (Fortran 2018 19.4, 19.5.1.4): an identifier obtained by use association or declared
+   in an inner scope hides the host-associated entity of that name *)
 Definition nested_lower_spec (c : cls) (g : graph) (M : module) (S : nscope) : list (str * ent) :=
   if is_body S then nested_imports c g M S
-  else scope c g M ++ flat_map (nested_imports c g M) (hosts M S).
+  else fold_left (fun acc H => layer acc (map d_name (s_decls H)) (nested_imports c g M H))
+                 (hosts M S) (scope c g M).
 
 (* ------------------------------------------------------------------ comparison, wf, regions *)
 
